@@ -17,6 +17,8 @@ type Which struct {
 	R3        bool
 	// Siblings lists directories whose Weighted/unweighted type pairs are compared
 	Siblings []string
+	// SiblingState: the same pairs, compared on their receiver-state updates only (TWIN.sibstate)
+	SiblingState []string
 	// only generated pairs whose destination lies under one of these prefixes
 	Prefixes []string
 	// only these bounds families ("mat-index", "fftpack-array"); empty = all
@@ -33,6 +35,7 @@ func Run(w Which) *core.Result {
 		"TWIN.bounds: the bounds/!bounds twin files ('must be kept in sync') have identical bodies once guard statements are set aside, and the guards on each access path (exported wrapper + unexported accessor) agree",
 		"TWIN.sync: reuseAsNonZeroed and reuseAsZeroed differ only by use/useZeroed and the trailing Zero()",
 		"TWIN.sibling: in graph/iterator every type and its Weighted sibling have methods that are images of each other under the Weighted renaming",
+		"TWIN.sibstate: in graph/iterator every method and the corresponding method of the Weighted sibling type make the same assignments to the receiver's fields (cursor, length, current element) up to the Weighted renaming",
 		"TWIN.r3: the safe and unsafe 3x3 builders store the same expression to each element")
 	if w.Generated {
 		runGenerated(res, w.Prefixes)
@@ -47,7 +50,10 @@ func Run(w Which) *core.Result {
 		runR3(res)
 	}
 	for _, d := range w.Siblings {
-		runWeightedSiblings(res, d)
+		runWeightedSiblings(res, d, false)
+	}
+	for _, d := range w.SiblingState {
+		runWeightedSiblings(res, d, true)
 	}
 	return res
 }
